@@ -3,6 +3,7 @@ import importlib, random
 import numpy as np
 from .. import tlc, cases
 from .c01 import PROTOS
+from ..core import Unchanged
 
 TOL = 1e-6
 
@@ -49,12 +50,14 @@ def observe(model, pop, src):
         arg = pop if src == "matrix" else (mat[0] + mat[1]).astype("int8")
     lat = True
     out = {"n": int(n), "a": [int(x) for x in a], "src": src}
+    guard = Unchanged(model=model, population=pop)
     for key, fn, un in (("usl0", model.usl, False), ("lsl0", model.lsl, False), ("usl1", model.usl, True), ("lsl1", model.lsl, True)):
         v, ok = ints(fn(arg, unscale=un) if src != "array" else fn(arg, ploidy=2, unscale=un))
         out[key] = v; lat = lat and ok
     g = np.asarray(model.gebv(pop).unscale(), dtype=float)
     gmin, ok1 = ints(g.min(0)); gmax, ok2 = ints(g.max(0))
     out["gmin"] = gmin; out["gmax"] = gmax; out["lat"] = bool(lat and ok1 and ok2)
+    out["argsame"] = guard.changed()
     return out
 
 
